@@ -35,6 +35,9 @@ dbus_bool_t _dbus_header_get_field_basic (DBusHeader *header, int field, int typ
   if (G.has_fds_field) { *(dbus_uint32_t *)value = G.announced; return 1; } return 0; }
 static char list_node;
 dbus_bool_t _dbus_list_append (DBusList **list, void *data) { if (nondet_bool()) return 0; G.appended++; *list = (DBusList *)&list_node; return 1; }
+/* C11/C05: a complete message joins the END of the loader's queue (the transport pops the first: C11.loader_queue) */
+dbus_bool_t _dbus_list_prepend (DBusList **list, void *data) { __CPROVER_assert (0, "order: a loaded message is never put in FRONT of earlier loaded messages"); return 0; }
+void _dbus_list_prepend_link (DBusList **list, DBusList *link) { __CPROVER_assert (0, "order: a loaded message is never put in FRONT of earlier loaded messages"); }
 DBusList *_dbus_list_find_last (DBusList **list, void *data) { return G.appended > G.removed_last ? (DBusList *)&list_node : NULL; }
 dbus_bool_t _dbus_list_remove_last (DBusList **list, void *data) { if (G.appended > G.removed_last) { G.removed_last++; return 1; } return 0; }
 dbus_bool_t _dbus_string_copy_len (const DBusString *source, int start, int len, DBusString *dest, int insert_at) { PRE(source == s_data && dest == s_body && insert_at == 0 && start >= 0 && len >= 0 && start + len <= len_data, "_dbus_string_copy_len"); if (nondet_bool()) return 0; G.body_copied++; len_body = len; return 1; }
